@@ -128,3 +128,14 @@ package cache
 //@     assert [C07,C17,C19:a-closed-cache-still-runs-the-deletion-callback] delFunc == nil || gDelRan
 //@   at before stmt return true#1
 //@     assert [C17:a-deleted-entry-is-banned-from-the-replacement-policy] r.cacher == nil || calls("cache.Cacher.Ban") == old(calls("cache.Cacher.Ban")) + 1
+
+// The capacity the policy reports is the bound its charge counter is held under (the within-capacity clauses above),
+// and a reset policy is charged nothing.
+//@ func (*lru).Capacity
+//@   props C17
+//@   safety off
+//@   ensures [C17:the-capacity-reported-is-the-bound-enforced] result == r.capacity
+//@ func (*lru).reset
+//@   props C17
+//@   safety off
+//@   ensures [C17:a-reset-policy-is-charged-nothing] r.used == 0 && r.capacity == old(r.capacity)
